@@ -404,6 +404,21 @@ def St.okTest (s : St) (c : List Nat) : Bool :=
       | some _ => true
     | none => false)
 
+/-- Executable form of "may be reported by `MPI_Testsome`" for a located index (see `Reportable`). -/
+def reportableB (s : St) : Loc → Bool
+  | .win k j =>
+    match s.pools[k]? with
+    | some p => decide (j < p.t)
+    | none => false
+  | .dyn j => decide (j < s.dyn.slots.length)
+  | .out => false
+
+/-- Executable form of the hypotheses of the pass theorem on the located indices reported by one `MPI_Testsome`
+    call: distinct, each holding a request, those of the dynamic region in increasing order.  The driver evaluates
+    it on every `test` line (`reject-loc` otherwise); `passOkB_sound` turns it into the hypotheses. -/
+def passOkB (s : St) (ls : List Loc) : Bool :=
+  decide ls.Nodup && ls.all (reportableB s) && decide ((dynOffs ls).Pairwise (fun a b => a < b))
+
 /-! ## `next_tag` -/
 
 /-- `next_tag(k)` with `MAX_MPI_TAG = m`: returns the first tag of the block and the new value of
